@@ -9,11 +9,11 @@
 # (d) correspondence of the extracted model: the raw C arguments logged by capi_driver go through `forward`, the C++ side's
 #     callbacks through `backward`; both must reproduce what the other side saw
 # The Swift bindings (products/llbuildSwift) are out of scope: they sit on top of this C interface.
-import os, json, sqlite3, re, collections
+import os, json, sqlite3, re, collections, shutil
 import vlib, enginelib
 from vlib import hx
 
-CPP_ONLY = ("need", "prior", "epoch", "deps", "waitgraph")       # observations only a C++ client can make
+CPP_ONLY = ("need", "prior", "epoch", "deps", "deps-unavailable", "waitgraph")       # observations only a C++ client can make
 C_EXTRA = ("status", "raw")                                      # extra lines of capi_driver
 INEXPRESSIBLE = [
     "rule signatures (llb_rule_t has no signature: every rule has the null signature; scenarios use sig=0, no signature edits)",
@@ -178,8 +178,15 @@ def gen_scenario(rng, sched=None):
 
 class Pair:
     def __init__(self, drv, wd):
-        self.drv, self.wd = drv, wd
-        self.n = 0
+        # private copies of the two binaries: another check may relink the shared ones while this one runs
+        os.makedirs(os.path.join(wd, "bin"), exist_ok=True)
+        self.drv = {}
+        for n, p in drv.items():
+            q = os.path.join(wd, "bin", n)
+            with vlib.Lock("drv-hooks"):
+                shutil.copy2(p, q)
+            self.drv[n] = q
+        self.wd = wd
 
     def run(self, lines, trace=False, c_lines=None, only=None):
         """-> dict(cpp=[comparable lines], c=[comparable lines], rawc=[...], cpp_all, c_all, errors=[...])"""
